@@ -651,6 +651,119 @@ def sampled_cases(draw):
     return case
 
 
+def proxy_cases() -> list[dict]:
+    out = []
+    for kind in ("refuse407", "refuse403-body", "refuse502-close"):
+        out.append({"proxy": kind, "end": "error"})
+    for end in ("total", "connect", "sock_read"):
+        out.append({"proxy": "silent", "end": "timeout", "timeouts": {end: 0.5}})
+    for k in (0, 1, 2, 3, 5, 8, 12):
+        out.append({"proxy": "silent", "end": "cancel", "k": k})
+        out.append({"proxy": "silent", "end": "connector-close", "k": k})
+    return out
+
+
+def check_proxy(rec: Rec, case: dict) -> None:
+    """https through an HTTP proxy: the CONNECT exchange with the proxy is a phase of its own in which the proxy can refuse,
+    stall, or the caller can give up.  Whatever happens, the connection to the proxy does not outlive the request and the
+    connector's close()."""
+    import aiohttp
+
+    w = World({"stall": None})
+    loop = w.loop
+    out: dict = {}
+    try:
+        asyncio.set_event_loop(loop)
+        w.install()
+        kind = case["proxy"]
+
+        def on_request(peer, head: str) -> None:
+            w.served.append((peer.idx, head.split(" ")[0]))
+            if kind == "refuse407":
+                peer.send(b"HTTP/1.1 407 Proxy Authentication Required\r\nProxy-Authenticate: Basic realm=x\r\nContent-Length: 0\r\n\r\n")
+            elif kind == "refuse403-body":
+                peer.send(b"HTTP/1.1 403 Forbidden\r\nContent-Length: 6\r\n\r\ndenied")
+            elif kind == "refuse502-close":
+                peer.send(b"HTTP/1.1 502 Bad Gateway\r\nConnection: close\r\nContent-Length: 0\r\n\r\n")
+            # "silent": the proxy accepts the connection and never answers the CONNECT
+
+        w.on_request = on_request  # type: ignore[method-assign]
+
+        async def go():
+            conn = aiohttp.TCPConnector(resolver=w.resolver())
+            session = aiohttp.ClientSession(connector=conn, timeout=aiohttp.ClientTimeout(total=None))
+            tkw = {"total": None, "connect": None, "sock_connect": None, "sock_read": None}
+            tkw.update(case.get("timeouts", {}))
+
+            async def req():
+                async with session.get("https://secure.test/x", proxy="http://proxy.test:3128", timeout=aiohttp.ClientTimeout(**tkw)) as resp:
+                    return resp.status
+
+            t = loop.create_task(req())
+            if case["end"] in ("cancel", "connector-close"):
+                for _ in range(case["k"]):
+                    await asyncio.sleep(0)
+                if case["end"] == "cancel":
+                    t.cancel()
+                else:
+                    await conn.close()
+                    t.cancel()
+            try:
+                out["result"] = await asyncio.wait_for(asyncio.shield(t), 30)
+            except asyncio.CancelledError:
+                out["result"] = "cancelled"
+            except asyncio.TimeoutError as e:
+                out["result"] = "timeout" if t.done() else "hang"
+                if not t.done():
+                    t.cancel()
+            except BaseException as e:  # noqa: BLE001
+                out["result"] = type(e).__name__
+            for _ in range(5):
+                await asyncio.sleep(0)
+            out["open_after_request"] = [ct.name for ct, _st in w.transports if not ct.closing]
+            await session.close()
+            for _ in range(5):
+                await asyncio.sleep(0)
+            out["open_after_close"] = [ct.name for ct, _st in w.transports if not ct.closing]
+            out["leftover"] = sorted(tk.get_name() for tk in asyncio.all_tasks(loop) if not tk.done() and tk is not asyncio.current_task())
+
+        loop.drive(go(), max_time=500)
+    finally:
+        w.uninstall()
+        asyncio.set_event_loop(None)
+        loop.shutdown()
+    desc = f"case={case} result={out.get('result')} served={w.served}"
+    if out.get("result") == "hang":
+        raise Violation("proxy/request-hangs", f"the request did not end within 30 s; {desc}")
+    if case["end"] == "error" and out.get("result") != "ClientHttpProxyError":
+        raise Violation("proxy/wrong-outcome", f"a refused CONNECT must surface as ClientHttpProxyError; {desc}")
+    if case["end"] == "timeout" and out.get("result") != "timeout":
+        raise Violation("proxy/no-timeout", f"a proxy that never answers CONNECT: the request must time out; {desc}")
+    if out.get("open_after_close"):
+        raise Violation("proxy/connection-open-after-close", f"connection(s) {out['open_after_close']} to the proxy still open after the request ended and the session/connector "
+                        f"was closed; {desc}")
+    if out.get("open_after_request"):
+        raise Violation("proxy/connection-open-after-request", f"connection(s) {out['open_after_request']} to the proxy still open after the request ended; {desc}")
+    if out.get("leftover"):
+        raise Violation("proxy/task-left", f"tasks still running: {out['leftover']}; {desc}")
+    rec.case(case, True, ["proxy:" + case["proxy"], "end:" + case["end"]])
+
+
+def unit_proxy(rec: Rec) -> None:
+    rec.exhaustive = True
+    for case in proxy_cases():
+        try:
+            check_proxy(rec, case)
+        except Violation as v:
+            if rec.is_known(v.key):
+                rec.known_hits[v.key] += 1
+                continue
+            if v.key in rec.muted:
+                continue
+            rec.fail(v.key, v.msg, case)
+            rec.muted.add(v.key)
+
+
 def unit_sampled(rec: Rec, n: int, offset: int) -> None:
     hyp.run(rec, sampled_cases(), check_case, n, seed_offset=offset, max_root_causes=6)
 
@@ -662,6 +775,7 @@ def units(tier: str, seed: int) -> list[Unit]:
         us.append(Unit(f"stalls-{sh}", unit_stalls, {"shard": sh, "nshards": nsh}))
     for i, shape in enumerate(cancel_shapes()):
         us.append(Unit(f"cancel-{i}", unit_cancel, {"shape": shape, "kmax": 45 if tier == "quick" else 120}))
+    us.append(Unit("proxy-connect", unit_proxy, {}))
     n = 600 if tier == "quick" else 25000
     for i in range(6 if tier == "quick" else 12):
         us.append(Unit(f"sampled{i}", unit_sampled, {"n": n, "offset": i}))
@@ -669,4 +783,7 @@ def units(tier: str, seed: int) -> list[Unit]:
 
 
 def replay(rec: Rec, case: dict) -> None:
+    if "proxy" in case:
+        check_proxy(rec, case)
+        return
     check_case(rec, case)
